@@ -9,8 +9,9 @@ import (
 )
 
 // vxCtxT: the context the harness substitutes for context.WithTimeout under symgo: the
-// timer is a goroutine that fires at an arbitrary scheduling point unless cancelled
-// first, so every order of "timeout" and "origin answers" is explored.
+// timer is a goroutine that fires once every other goroutine is blocked (virtual time
+// advances only then - the semantics of testing/synctest, in which replays run), unless
+// it is cancelled first.  A slow origin is modelled explicitly by the origin stub.
 type vxCtxT struct {
 	parent context.Context
 	done   chan struct{}
@@ -39,7 +40,7 @@ func vxWithTimeout(parent context.Context, d time.Duration) (context.Context, co
 	vxLastCtx = c
 	if !vxNoTimer {
 		go func() {
-			vxYield()
+			vxIdleWait() // the timeout elapses only while everything else is blocked
 			c.fire(context.DeadlineExceeded)
 		}()
 	}
@@ -115,6 +116,7 @@ func VxB_SWR() {
 	req := vxGET(reqHdr)
 
 	okind := vxChoice("bg.kind", 5)
+	slow := vxChoice("bg.slow", 2) == 1
 	timeoutSeen := time.Duration(-1)
 	var bgReq *http.Request
 	w.origin.script = func(n int, r *http.Request) (*http.Response, error) {
@@ -125,6 +127,9 @@ func VxB_SWR() {
 		w.clk.advance()
 		d := vxHTTPDate("v.date")
 		vxAssume(vxIntRange("v.date.sec", 0, 4102444800) > 0)
+		if slow && r.Context().Done() != nil {
+			<-r.Context().Done() // an origin slower than the timeout that ignores cancellation
+		}
 		switch okind {
 		case 0:
 			return &http.Response{StatusCode: 304, Header: http.Header{"Date": []string{d}, "X-Rev": []string{"2"}, "Cache-Control": []string{"max-age=60, stale-while-revalidate=600"}}, Body: &vxBodyT{tag: 1}}, nil
